@@ -146,8 +146,20 @@ func c01CheckBatch(run *vlib.Run, cases []schemaCase) (map[int][]vlib.Violation,
 		if r.HasStrict && r.StrictErr == "" && r.StrictEncoded != "" {
 			// both decoders must yield the same value: the strict decoder's
 			// re-encoding is compared with the standard decoder's
-			if sd, _ := smodel.CompareRoundTrip(c.Model, d.Def, r.Encoded, r.StrictEncoded); len(sd) > 0 {
-				add(fmt.Sprintf("strict-roundtrip-differs:%s:%s:%s", f, sd[0].Class, sd[0].FieldKind), "value decoded by the strict decoder re-encodes to %s, differs at %s: %s", r.StrictEncoded, sd[0].Path, sd[0].Detail)
+			sd, _ := smodel.CompareRoundTrip(c.Model, d.Def, r.Encoded, r.StrictEncoded)
+			seenStrict := map[string]bool{}
+			for _, df := range sd {
+				// which lists / maps lose their emptiness depends on what they hold
+				kind := df.FieldKind
+				if df.ElemKind != "" && strings.Contains(df.Class, "empty-") {
+					kind += "-of-" + df.ElemKind
+				}
+				sig := fmt.Sprintf("strict-roundtrip-differs:%s:%s:%s", f, df.Class, kind)
+				if seenStrict[sig] {
+					continue
+				}
+				seenStrict[sig] = true
+				add(sig, "value decoded by the strict decoder re-encodes to %s, differs at %s: %s", r.StrictEncoded, df.Path, df.Detail)
 			}
 		}
 		if len(diffs) == 0 {
